@@ -16,6 +16,7 @@ extern crate rustc_session;
 extern crate rustc_span;
 
 mod json;
+mod mono;
 use json::J;
 
 use rustc_driver::Compilation;
@@ -875,6 +876,29 @@ fn dump<'tcx>(tcx: TyCtxt<'tcx>, dir: &str) {
         // descend into nested bodies by default (NestedFilter = None).
         let mut mv = MatchVisitor { cx: &mut cx, tr, owner, out: &mut matches };
         hir::intravisit::Visitor::visit_expr(&mut mv, hbody.value);
+    }
+
+    // ---- monomorphic call graph (separate file)
+    if std::env::var("QFACTS_NO_MONO").is_err() {
+        let mut m = mono::Mono::new(tcx);
+        for ldid in tcx.hir_body_owners() {
+            let did = ldid.to_def_id();
+            if matches!(tcx.def_kind(did), DefKind::Fn | DefKind::AssocFn) {
+                m.add_root(did);
+            }
+        }
+        m.run();
+        let pf = |d: DefId| cx.path(d);
+        let dpf = |d: DefId| cx.dp(d);
+        let j = m.to_json(&pf, &dpf);
+        let mut out = String::new();
+        j.write(&mut out);
+        let kinds: Vec<String> = tcx.crate_types().iter().map(|c| format!("{:?}", c)).collect();
+        let fname = format!("{}/mono-{}-{}.json", dir, crate_name, kinds.join("_").to_lowercase());
+        let tmp = format!("{}.tmp.{}", fname, std::process::id());
+        std::fs::create_dir_all(dir).ok();
+        std::fs::write(&tmp, out).expect("qfacts: cannot write mono file");
+        std::fs::rename(&tmp, &fname).expect("qfacts: cannot rename mono file");
     }
 
     let types = std::mem::take(&mut cx.types);
